@@ -59,26 +59,32 @@ Theorem C05_isolation_spec : forall (o : op) A (outs : list (list A)) junk (h h'
 Proof. exact isolation_spec. Qed.
 Print Assumptions C05_isolation_spec.
 
-(* PARTIAL: the catalogue of the code's effects (impl_effs): every operation / query with `isolated o = true`
-   (all Clean transformations and all queries).  Missing: eval('B = A'), eval of a view, getvarpnc coordinates,
-   slice_dim (their outputs share buffers with the input; refuted below). *)
-Theorem C05_isolation_partial : forall (o : op), isolated o = true ->
-  forall A (outs : list (list A)) junk (h h' : heap A) out ws,
+(* FULL strength since the fixes C05-eval-result-copy, C05-getvarpnc-coord-copy, C05-slice_dim-copy (and the query fixes):
+   for EVERY call of the catalogue (Model/Alias.v: all transformations and all queries; impl_effs is empty for each), any
+   heap, any cell type, any later sequence of writes into the returned file: the outputs are disjoint from every existing
+   buffer and every existing buffer is unchanged.  (Was `_partial`, restricted to `isolated o = true`; no call is outside
+   that domain any more.  What still restricts the claim is only the tie: the catalogue is hand-written and held to the
+   code by the correspondence, F, on the generated cases.) *)
+Theorem C05_isolation : forall (o : op) A (outs : list (list A)) junk (h h' : heap A) out ws,
   run_actions A h (actions_of (impl_effs o) outs junk) = (h', out) ->
   (forall w, In w ws -> In (fst w) out) ->
   (forall j, In j out -> length h <= j)
   /\ forall i, i < length h -> hread A (write_all A h' ws) i = hread A h i.
-Proof. exact isolation_isolated. Qed.
-Print Assumptions C05_isolation_partial.
+Proof. exact isolation_all. Qed.
+Print Assumptions C05_isolation.
 
-(* eval('B = A'): a later write into B changes A of the input file *)
-Theorem C05_result_alias_refuted : exists (o : op) (h h' : heap nat) out ws i,
-  run_actions nat h (actions_of (impl_effs o) [] []) = (h', out)
+Theorem C05_all_calls_isolated : forall o : op, isolated o = true.
+Proof. exact all_isolated. Qed.
+Print Assumptions C05_all_calls_isolated.
+
+(* the hypothesis of C05_fresh_outputs_isolated can fail and then the conclusion does: an output that IS an input buffer
+   (what eval('B = A'), getvarpnc coordinates and slice_dim used to produce) lets a later write change the input *)
+Theorem C05_fresh_hypothesis_needed : exists (acts : list (action nat)) (h h' : heap nat) out ws i,
+  run_actions nat h acts = (h', out)
   /\ (forall w, In w ws -> In (fst w) out) /\ i < length h
-  /\ hread nat h' i = hread nat h i
   /\ hread nat (write_all nat h' ws) i <> hread nat h i.
-Proof. exact alias_refuted. Qed.
-Print Assumptions C05_result_alias_refuted.
+Proof. exact fresh_hypothesis_needed. Qed.
+Print Assumptions C05_fresh_hypothesis_needed.
 
 (* FULL strength for the queries (time decoding, value-to-index lookup, dump/repr, save) since the fixes
    C05-getTimes-copy and the val2idx copies: they leave the heap exactly as it was and return no buffer. *)
@@ -96,6 +102,6 @@ Example C05_history_inhabited :
 Proof. vm_compute. split; reflexivity. Qed.
 
 Example C05_isolated_inhabited :
-  isolated (Clean 3) = true /\ isolated (Query 7) = true /\ isolated (EvalName 1) = false
-  /\ isolated (Getvarpnc [0; 1]) = false /\ isolated (Getvarpnc []) = true.
+  isolated (Clean 3) = true /\ isolated (Query 7) = true
+  /\ run_actions nat [[1; 2]] (actions_of (impl_effs (Clean 0)) [[1; 2]; [7]] []) = ([[1; 2]; [1; 2]; [7]], [1; 2]).
 Proof. vm_compute. repeat split; reflexivity. Qed.
